@@ -151,9 +151,28 @@ func (p *Parser) ParseConditionalExpression() *ConditionalExpression {
 	}
 
 	for p.curToken.Type != EOF {
+		if stmt.Expression != nil {
+			// a complete expression was already parsed: anything after it is a syntax error,
+			// never a second expression that silently replaces the first
+			unexpected := p.curToken.Literal
+
+			p.parseExpression(precedenceValueLowset)
+
+			if len(p.errors) == 0 {
+				msg := fmt.Sprintf("Syntax error; unexpected token: %q", unexpected)
+				p.errors = append(p.errors, msg)
+			}
+
+			return stmt
+		}
+
 		stmt.Expression = p.parseExpression(precedenceValueLowset)
 
 		p.nextToken()
+	}
+
+	if stmt.Expression == nil && len(p.errors) == 0 {
+		p.errors = append(p.errors, "Syntax error; the expression is empty")
 	}
 
 	return stmt
